@@ -2,7 +2,9 @@
 
 from __future__ import annotations
 
-from gev import core, refmodel, stream, workload
+import random as pyrandom
+
+from gev import core, grammars, refmodel, stream, workload
 
 PROPERTY = "C11"
 LEVEL = "exploration"
@@ -15,20 +17,32 @@ ASSUMPTIONS = [
     "convention pinned by the library's tests: base values and field-less nodes count 0 nodes at distance 0; a fielded node counts 1 at max(1, 1 + deepest non-list child); lists are transparent; weighted size = sum of distances of fielded nodes",
     "nodes nested in tuple fields may be counted or not (the statement names lists only): a node is flagged only if it disagrees with both readings",
     "the type index is compared on grammar classes only, as multisets of object identities",
-    "expansion depthing increments are under-documented: in that mode only the presence of labels is required",
+    "expansion depthing: one per rule expansion along the class hierarchy for positions declared with an abstract class and 1 for a field-less node are documented and exact; built-in leaves, list levels and wrapped positions are bracketed between their lowest (0) and highest (1 / longest chain) reading",
 ]
 PLAN = {
     "quick": {"shards": 8, "shard_timeout": 400, "case_timeout": 25, "grammars": 150, "max_case_timeouts": 6},
     "thorough": {"shards": 16, "shard_timeout": 3600, "case_timeout": 40, "grammars": 14000, "max_case_timeouts": 160},
 }
 THRESHOLDS = {
-    "quick": {"nodes_compared": 20000, "nodes_under_lists": 2000, "programs_after_variation": 300, "repr:tree": 300, "repr:ge": 100, "repr:sge": 100, "repr:dsge": 100, "list_nodes_compared": 1000},
+    "quick": {"nodes_compared": 20000, "nodes_under_lists": 2000, "programs_after_variation": 300, "repr:tree": 300, "repr:ge": 100, "repr:sge": 100, "repr:dsge": 100, "list_nodes_compared": 1000, "expansion_nodes_compared": 8000, "expansion_nodes_with_exact_reference": 3000, "layered_expansion_cases": 100},
     "thorough": {"nodes_compared": 400000, "nodes_under_lists": 40000, "programs_after_variation": 6000},
 }
 
 
 def gen_cases(tier, seed):
-    yield from stream.gen_cases(tier, seed, PLAN[tier]["grammars"], profiles=("general",), with_search=False, expansion_share=0.1)
+    yield from stream.gen_cases(tier, seed, PLAN[tier]["grammars"], profiles=("general",), with_search=False, expansion_share=0.3)
+    # expansion depthing on layered hierarchies, entered at every level and with the classes listed in several orders
+    # (the per-rule expansion counts are derived from registration order)
+    rng = pyrandom.Random(f"c11-layers-{seed}")
+    layered = [d for d in grammars.family(seed, PLAN[tier]["grammars"], "general") if any(a.get("parent") for a in d["abstracts"])]
+    for desc in layered:
+        for k in range(4):
+            d = grammars.reordered(dict(desc), rng, move_start=True)
+            d["expansion"] = True
+            for rk, dk in (("tree", rng.choice(["maxdepth", "pigrow"])), (rng.choice(["ge", "sge", "dsge"]), "own" if False else "maxdepth")):
+                if rk == "dsge":
+                    dk = "own"
+                yield {"desc": d, "repr": rk, "decider": dk, "extra_depth": rng.choice([1, 2, 3]), "seed": rng.randrange(10**6), "nops": rng.randint(6, 14), "search": None, "retype": False, "layered": True}
 
 
 def observed(n, model):
@@ -42,6 +56,8 @@ def observed(n, model):
 
 def check_program(ctx, prog, where, rec):
     model = ctx.model
+    if ctx.case.get("layered") and where == "create":
+        rec.count("layered_expansion_programs")
     rec.count("programs_checked")
     rec.count(f"repr:{ctx.repr}")
     if where in ("mutate", "crossover"):
@@ -57,6 +73,13 @@ def check_program(ctx, prog, where, rec):
     except RecursionError:
         rec.count("too_deep_for_reference")
         return
+    t_exp: dict = {}
+    if expansion:
+        try:
+            refmodel.labels_expansion(model, prog, t_exp, None)
+        except RecursionError:
+            rec.count("too_deep_for_reference")
+            return
     in_list = _ids_under_lists(model, prog)
     seen = set()
     for n in nodes:
@@ -72,7 +95,24 @@ def check_program(ctx, prog, where, rec):
             rec.violation(f"unlabelled:{ctx.repr}:{'list' if is_list else 'node'}", {"where": where, "node": core.short(model.canon(n), 200), "grammar": ctx.case["desc"]["name"]})
             continue
         if expansion:
-            rec.count("expansion_nodes_presence_only")
+            # expansion depthing: the documented part (one per rule expansion along the class hierarchy, a field-less node
+            # counts 1) is exact, the rest (built-in leaves, list levels, wrapped positions) is bracketed by its lowest and
+            # highest reading; the type index does not depend on the depthing mode
+            rec.count("expansion_nodes_compared")
+            iv = t_exp.get(id(n))
+            if iv is not None:
+                lo, hi = iv
+                names = ["nodes", "distance", "weighted"]
+                bad = [names[i] for i in range(3) if not (lo[i] <= obs[i] <= hi[i])]
+                if bad:
+                    ctxs = "under-list" if id(n) in in_list else ("has-list-child" if any(isinstance(x, list) for x in model.children(n)) else "plain")
+                    rec.violation(f"labels-expansion:{ctx.repr}:{bad[0]}:{ctxs}", {"where": where, "node": core.short(model.canon(n), 300), "observed": {"nodes": obs[0], "distance": obs[1], "weighted": obs[2]}, "lowest_reading": list(lo), "highest_reading": list(hi), "grammar": ctx.case["desc"]["name"], "start": ctx.case["desc"]["start"], "class_order": ctx.case["desc"].get("considered")})
+                elif lo == hi:
+                    rec.count("expansion_nodes_with_exact_reference")
+                    rec.distinct_add(["exp", model.canon(n), obs[0], obs[1], obs[2]])
+            tys = [{k: sorted(v) for k, v in table[id(n)].types.items()} for table in (t_open, t_closed) if id(n) in table]
+            if tys and obs[3] not in tys:
+                rec.violation(f"labels-expansion:{ctx.repr}:types", {"where": where, "node": core.short(model.canon(n), 300), "grammar": ctx.case["desc"]["name"]})
             continue
         rec.count("nodes_compared")
         if is_list:
@@ -129,6 +169,8 @@ def run_case(case, rec):
     ctx = stream.open_case(case, rec)
     if ctx is None:
         return
+    if case.get("layered"):
+        rec.count("layered_expansion_cases")
     try:
 
         def on_event(ev: workload.Event):
